@@ -64,8 +64,10 @@ def parse_kv(tokens):
     return kv, rest
 
 
-def parse_unit(path):
+def parse_unit(path, _included=None):
     """returns dict(meta, segments); segment = ('text', str) | ('extract', dict)"""
+    if _included is None:
+        _included = set()
     meta = {"includes": [], "props": [], "file": None, "panics": "obligation", "name": os.path.basename(path)[:-4]}
     segs = []
     cur_text = []
@@ -93,7 +95,10 @@ def parse_unit(path):
             elif d == "include:":
                 flush_text()
                 for inc in toks[1:]:
-                    sub = parse_unit(os.path.join(VERIF, inc))
+                    if inc in _included:
+                        continue
+                    _included.add(inc)
+                    sub = parse_unit(os.path.join(VERIF, inc), _included)
                     segs.append(("text", f"// ---- include {inc}"))
                     segs.extend(sub["segments"])
                     meta.setdefault("expects", []).extend(sub["meta"].get("expects", []))
@@ -382,6 +387,17 @@ def assemble(unit, workdir, vacuity_twins=False):
         if re.sub(r"\s+", "", txt) not in re.sub(r"\s+", "", src):
             raise UnitError(f"LOST-ANCHOR {f}: expected text not found: {txt!r}")
     unit = expand_twins(unit)
+    seen_items = set()
+    dedup = []
+    for kind, seg in unit["segments"]:
+        if kind == "extract" and seg["kind"] in ("struct", "enum", "const", "type", "sig"):
+            key = (seg["kind"], seg["path"], seg["file"])
+            if key in seen_items:
+                continue
+            seen_items.add(key)
+        dedup.append((kind, seg))
+    unit = dict(unit)
+    unit["segments"] = dedup
     extracts = [s[1] for s in unit["segments"] if s[0] == "extract"]
     reqs = [build_request(ex, meta) for ex in extracts]
     items = run_extractor(reqs, workdir)
@@ -472,6 +488,7 @@ def assemble(unit, workdir, vacuity_twins=False):
         end = cur_line() - 1
         if hdr:
             emit("}")
+        emit("//@@ end of extracted fn")
         A.fn_ranges.append((start, end, fq, {"file": item["file"], "line": item["line"], "end_line": item.get("end_line"),
                                                     "props": ex["opts"].get("props", "").split(",") if ex["opts"].get("props") else meta["props"]}))
         for ap in item.get("applied") or []:
